@@ -52,6 +52,15 @@ func c18GenTree(r *Rng) c18Tree {
 		files["lib/xcore.lua"] = "return {}\n" // for the component-boundary near miss ("core" vs "xcore")
 	}
 	t := c18Tree{Files: files, Main: "main.lua"}
+	// a third of the trees keep the requiring file in a directory of its own, next to one of two packages (name/init.lua) of
+	// the same name that lie equally deep
+	pkgReq := ""
+	if r.Fork(0x706b67).Chance(1, 3) {
+		t.Main = "zapp/main.lua"
+		pkgReq = fmt.Sprintf("pkgq%d", r.Fork(0x706b68).Intn(10))
+		files["alib/"+pkgReq+"/init.lua"] = "local M = { id = 9001 }\nreturn M\n"
+		files["zapp/"+pkgReq+"/init.lua"] = "local M = { id = 9002 }\nreturn M\n"
+	}
 	// module strings
 	var lines []string
 	add := func(kind, mod, class string) {
@@ -108,6 +117,9 @@ func c18GenTree(r *Rng) c18Tree {
 			add("dofile", rel, "dofile-full")
 		}
 	}
+	if pkgReq != "" {
+		add("require", pkgReq, "init-module-twice-at-the-same-depth")
+	}
 	add("require", "nowhere.mod", "missing")
 	add("dofile", "nothing/here.lua", "missing-dofile")
 	add("require", "ore", "near-miss-partial-basename") // "core" exists perhaps; "ore" must not match
@@ -134,13 +146,13 @@ func c18GenTree(r *Rng) c18Tree {
 			} else {
 				add("require-nopar", strings.ReplaceAll(p, "/", "."), "full-path-dotted-at-end-of-file")
 			}
-			files["main.lua"] = strings.Join(lines, "\n")
+			files[t.Main] = strings.Join(lines, "\n")
 			t.Files = files
 			return t
 		}
 	}
 	lines = append(lines, "print(1)")
-	files["main.lua"] = strings.Join(lines, "\n") + "\n"
+	files[t.Main] = strings.Join(lines, "\n") + "\n"
 	t.Files = files
 	return t
 }
@@ -183,7 +195,7 @@ func runC18(c *Ctx) {
 		c.Eval(1)
 		c18Check(c, t, r, fmt.Sprintf("c18t%d", ti), false)
 		if ti < 2 {
-			c.Sample(map[string]interface{}{"files": sortedKeys(t.Files), "main": t.Files["main.lua"]})
+			c.Sample(map[string]interface{}{"files": sortedKeys(t.Files), "main": t.Files[t.Main]})
 		}
 	})
 	// labelled extra case: a workspace directory whose path contains a dot
